@@ -38,7 +38,7 @@ func specLastOf(args []string, i int, short string, long string) string {
 //@ func parseOptions
 //@   loop @"for i < (len(args) - 1)" invariant[C19] input-and-output-are-what-their-own-switches-say-in-any-order: options.in == specLastOf(args, i, "-i", "--in") && options.out == specLastOf(args, i, "-o", "--out")
 //@   flag modular: true
-//@   ensures[C19] every-switch-has-its-value: len(os.Args) % 2 == 1
+//@   loop @"for i < (len(args) - 1)" invariant[C19] every-switch-has-its-value: len(args) % 2 == 1
 //@   ensures[C19] complete-or-no-return: len(result.in) > 0 && len(result.out) > 0 && len(result.converters) > 0
 //@   loop @"for i < (len(args) - 1)" invariant[C14,C19] one-factory-call-per-requested-target: calls(dyncall) == len(options.converters)
 //@   loop @"for i < (len(args) - 1)" invariant[C19] switches-at-odd-positions-all-known: i >= 1 && i % 2 == 1 && forall(j, 1, i, j % 2 == 1 ==> specIsSwitch(args[j]))
